@@ -450,12 +450,15 @@ DoEnd(ev) ==
                 \cup Lbl({"C05", "C06"}, "keep-going",
                        (~ok /\ ev.err = "" /\ w.intr = {} /\ budgetLeft)
                           => \A s \in kgScope : downstream(s) \/ uptodate(s)))
-      cov == BumpIf(BumpIf(BumpIf(BumpIf(BumpIf(BumpIf(BumpIf(BumpIf(w.cov,
+      cov == BumpIf(BumpIf(BumpIf(BumpIf(BumpIf(BumpIf(BumpIf(BumpIf(BumpIf(w.cov,
                 "endok", ok), "endfail", ~ok /\ ev.err = "" /\ ~dead), "enderr", ev.err # ""),
                 "cycle", ev.errk = "cycle"), "unknownPath", ev.errk = "unknown_path"),
                 "keptGoing", loaded /\ ~ok /\ ev.err = "" /\ w.finOK # {} /\ w.finFail # {}),
                 "outsideClosure", loaded /\ ok /\ \E s \in StepIds(g) \ Wn : DirtyNow(g, s)),
-                "cleanSkip", loaded /\ ok /\ \E s \in np : s \notin w.started)
+                "cleanSkip", loaded /\ ok /\ \E s \in np : s \notin w.started),
+                \* a step was left alone although a step producing one of its ordering inputs ran
+                \* (output unchanged, or only an order-only edge): the interesting half of C03
+                "skipAfterChange", loaded /\ ok /\ \E s \in np : s \notin w.started /\ OrdProd(g, s) \cap w.started # {})
       \* N2Work's exits: ExitDone needs pending = 0; a failed exit leaves nothing startable
       vexit == (IF loaded THEN OwedLbl ELSE {})
                \cup Lbl({"CONF"}, "exit-pending", (loaded /\ ok) => w.iv.pending = 0)
